@@ -23,7 +23,7 @@ RULE = ("cases from rng(seed, 14, 0, i): a file of 5..60 lines mixing all 10 sup
         "distinct = fingerprint of the file text; non-trivial = >= 3 supported line types and >= 1 junk line.")
 REQ = ["eval:objects-match-tokenizer", "eval:warnings-match-junk-lines", "eval:junk-removal-changes-nothing", "eval:entry-points-agree", "eval:custom-types-claim-own-lines", "eval:reload-after-another-file-identical",
        "line:VERTEX_SE2", "line:VERTEX_SE3:QUAT", "line:VERTEX_XY", "line:VERTEX_TRACKXYZ", "line:EDGE_SE2", "line:EDGE_SE3:QUAT", "line:EDGE_SE2_XY", "line:EDGE_SE3_TRACKXYZ",
-       "line:PARAMS_SE2OFFSET", "line:PARAMS_SE3OFFSET", "class:crlf", "class:several_param_ids", "class:junk:tag_tab", "class:junk:leading_space", "class:junk:wrong_case"]
+       "line:PARAMS_SE2OFFSET", "line:PARAMS_SE3OFFSET", "class:crlf", "class:several_param_ids", "class:junk:tag_tab", "class:junk:leading_space", "class:junk:wrong_case", "class:information_all_zero", "class:duplicate_edge_line"]
 PLAN = {
     "quick": {"cases": 1500, "soft_s": 70, "min_nontrivial": 400, "require": REQ},
     "thorough": {"cases": 80000, "soft_s": 1300, "min_nontrivial": 20000, "require": REQ},
@@ -73,6 +73,9 @@ def fmt_int(rng, v):
 def render(rng, tag, fields, crlf):
     parts = [tag]
     for kind, v in fields:
+        if kind == "z":
+            parts.append(str(rng.choice(["0", "0.0", "-0.0", "0e0", "+0", "0.", ".0", "0E+5"])))
+            continue
         parts.append(fmt_int(rng, v) if kind == "i" else fmt_float(rng, v, safe=(kind == "q")))
     seps = [" "] + [" " * int(rng.choice([1, 1, 1, 2, 3, 5])) for _ in range(len(parts) - 2)]
     s = parts[0]
@@ -113,6 +116,21 @@ def gen_file(rng, ctx, with_custom):
     def ang():
         return [("f", gen.angle(rng, big=1e4)[0])]
 
+    def tri(n):
+        """upper triangle of an information matrix: random, all zeros in assorted spellings, or the identity"""
+        m = n * (n + 1) // 2
+        u = rng.random()
+        if u < 0.1:
+            ctx.count("class:information_all_zero")
+            return [("z", 0.0)] * m
+        if u < 0.2:
+            out, t = [], 0
+            for a in range(n):
+                for b in range(a, n):
+                    out.append(("f", 1.0 if a == b else 0.0))
+            return out
+        return num(m)
+
     def quat():
         return [("f", x) for x in gen.unit_quat(rng)[0]]
 
@@ -129,11 +147,11 @@ def gen_file(rng, ctx, with_custom):
             params.append(("p", "PARAMS_SE2OFFSET", [("i", int(rng.integers(0, 5)))] + num(2) + ang()))
         for _ in range(int(rng.integers(1, 5))):
             a, b = [V["se2"][int(x)] for x in rng.choice(len(V["se2"]), 2, replace=False)]
-            edges.append(("e", "EDGE_SE2", [("i", a), ("i", b)] + num(2) + ang() + num(6)))
+            edges.append(("e", "EDGE_SE2", [("i", a), ("i", b)] + num(2) + ang() + tri(3)))
         for _ in range(int(rng.integers(0, 4))):
             a = V["se2"][int(rng.integers(len(V["se2"])))]
             b = V["r2"][int(rng.integers(len(V["r2"])))]
-            edges.append(("e", "EDGE_SE2_XY", [("i", a), ("i", b)] + num(2) + num(3)))
+            edges.append(("e", "EDGE_SE2_XY", [("i", a), ("i", b)] + num(2) + tri(2)))
     pids = []
     if "se3" in kinds:
         for _ in range(int(rng.integers(1, 4))):
@@ -145,11 +163,11 @@ def gen_file(rng, ctx, with_custom):
         for _ in range(int(rng.integers(1, 5))):
             a, b = [V["se3"][int(x)] for x in rng.choice(len(V["se3"]), 2, replace=False)]
             q = [("q", float(x)) for x in np.array(gen.unit_quat(rng)[0]) * (1.0 if rng.random() < 0.5 else float(rng.uniform(0.5, 2.0)))]
-            edges.append(("e", "EDGE_SE3:QUAT", [("i", a), ("i", b)] + num(3) + q + num(21)))
+            edges.append(("e", "EDGE_SE3:QUAT", [("i", a), ("i", b)] + num(3) + q + tri(6)))
         for _ in range(int(rng.integers(0, 4))):
             a = V["se3"][int(rng.integers(len(V["se3"])))]
             b = V["r3"][int(rng.integers(len(V["r3"])))]
-            edges.append(("e", "EDGE_SE3_TRACKXYZ", [("i", a), ("i", b), ("i", pids[int(rng.integers(len(pids)))])] + num(3) + num(6)))
+            edges.append(("e", "EDGE_SE3_TRACKXYZ", [("i", a), ("i", b), ("i", pids[int(rng.integers(len(pids)))])] + num(3) + tri(3)))
     if with_custom:
         allv = [v for k in kinds for v in V[k]]
         two_d = V.get("se2", []) + V.get("r2", []) if "se2" in kinds else []
@@ -160,6 +178,9 @@ def gen_file(rng, ctx, with_custom):
                 edges.append(("c", "EDGE_VF_DIST", [("i", a), ("i", b)] + num(2)))
         if two_d and rng.random() < 0.5:
             edges.append(("c", "EDGE_VF_PRIOR", [("i", two_d[int(rng.integers(len(two_d)))])] + num(3)))
+    if edges and rng.random() < 0.3:
+        edges.append(edges[int(rng.integers(len(edges)))])  # the same edge line twice
+        ctx.count("class:duplicate_edge_line")
     # legal interleaving: a TRACKXYZ edge must come after some definition of its parameter id
     items = recs + params + edges
     order = list(rng.permutation(len(items)))
@@ -185,6 +206,7 @@ def gen_file(rng, ctx, with_custom):
     assert not deferred
     # render with junk and blank lines
     lines = []
+    rendered = {}
     for it in out:
         while rng.random() < 0.25:
             jk = str(rng.choice(list(JUNK)))
@@ -192,7 +214,9 @@ def gen_file(rng, ctx, with_custom):
             ctx.count("class:junk:" + jk)
         if rng.random() < 0.1:
             lines.append((str(rng.choice(["", "   ", "\t"])) + ("\r\n" if crlf else "\n"), "blank"))
-        lines.append((render(rng, it[1], it[2], crlf), it[1]))
+        if id(it) not in rendered:
+            rendered[id(it)] = render(rng, it[1], it[2], crlf)
+        lines.append((rendered[id(it)], it[1]))  # an item listed twice is written as two identical lines
         ctx.count("line:" + it[1])
     if rng.random() < 0.3:
         lines.append(("# trailing comment without newline", "junk"))
